@@ -19,7 +19,8 @@ Inductive meth :=
 | MUpdate | MUpdateExtend | MIOr
 | MIterItems | MIterKeys | MIterValues | MReversed | MKeys | MValues | MItems | MIter
 | MGetState | MSetState | MCopy | MInverted | MCounts | MSorted | MToDict
-| MEq | MNe | MSortedValues.
+| MEq | MNe | MSortedValues
+| MInit | MFromKeys | MReduceEx.
 
 Inductive pv :=
 | VTok (n : nat) | VMissing | VBool (b : bool) | VCell (a : nat)
@@ -31,7 +32,11 @@ Inductive pv :=
 | VNat (n : nat) | VDict (d : list (nat * nat))       (* an int; a local dict of ints (lengths in __reversed__) *)
 | VKeyFn (f : keyfn) | VMulti (l : list (K * list V))    (* a sort key function; a plain dict of lists *)
 | VJunk (len : option nat)
-| VDictL (d : pydict (list V)).     (* a local dict of lists (sorted_val_map in sortedvalues) *)      (* an object that is neither a mapping nor an OMD; len() works or raises TypeError *)
+| VDictL (d : pydict (list V))      (* a local dict of lists (sorted_val_map in sortedvalues) *)
+(* the *args tuple of __init__: empty, one argument (an `arg`, with the other object's state when it is AOther),
+   or more than one *)
+| VArgs0 | VArgs1 (a : arg) (q : pomd) | VArgsMany
+| VReduce (state : pairs).           (* (copyreg.__newobj__, (cls,), state) *)      (* an object that is neither a mapping nor an OMD; len() works or raises TypeError *)
 
 Inductive ex :=
 | EVar (x : nat) | ENone | EMissing | ERoot
@@ -80,7 +85,10 @@ Inductive ex :=
 | EOr (a b : ex) | EAnd (a b : ex)             (* short-circuit *)
 | EExhausted
 | ESortedValMap (k r : ex)                     (* {k: sorted(v, key=k, reverse=r)[::-1] for k, v in super().items()} *)
-| ENewEmpty.                                   (* self.__class__() *)                                  (* next(it, _MISSING) is _MISSING for an iterator that the preceding
+| ENewEmpty                                    (* self.__class__() *)
+| ELenGt1 (e : ex)                             (* len(args) > 1 *)
+| EArgs0 (e : ex)                              (* args[0] *)
+| EReduce (e : ex).                            (* (copyreg.__newobj__, (self.__class__,), e) *)                                  (* next(it, _MISSING) is _MISSING for an iterator that the preceding
                                                   zip_longest loop has run to its end (checked by the translator) *)
 
 Inductive stmt :=
@@ -100,6 +108,7 @@ Inductive stmt :=
 | SDictIncr (d : nat) (k : ex)                                  (* d[k] += 1 *)
 | SObjAddPop (r m : nat) (k : ex)                               (* r.add(k, m[k].pop()) for a local object r and a
                                                                    local dict of lists m *)
+| SRaiseTypeError | SSuperInit                                  (* raise TypeError(...) / super().__init__() *)
 | STryTypeError (b h : stmt)                                    (* try: b  except TypeError: h *)
 | SForZip (k1 v1 k2 v2 : nat) (a b : ex) (body : stmt).         (* for (k1, v1), (k2, v2) in zip_longest(a, b,
                                                                    fillvalue=(_MISSING, _MISSING)): body *)
@@ -137,6 +146,9 @@ Definition list_of (s : pomd) (v : pv) : res (list nat) :=
 Definition truth (s : pomd) (v : pv) : res bool :=
   match v with
   | VBool b => Ok b
+  | VArgs0 => Ok false
+  | VArgs1 _ _ | VArgsMany => Ok true
+  | VKw m => Ok (match m with [] => false | _ => true end)
   | VToks _ | VStoreRef _ | VMapRef _ =>
       match list_of s v with Ok l => Ok (match l with [] => false | _ => true end) | Raise e => Raise e end
   | _ => Raise type_error
@@ -308,21 +320,21 @@ Section Interp.
     | EIsSelf a =>
         match eval en a s with
         | (Ok (VArg ASelf), s1) => (Ok (VBool true), s1)
-        | (Ok (VArg _), s1) | (Ok (VOtherObj _), s1) | (Ok (VJunk _), s1) => (Ok (VBool false), s1)
+        | (Ok (VArg _), s1) | (Ok (VOtherObj _), s1) | (Ok (VJunk _), s1) | (Ok (VKw _), s1) => (Ok (VBool false), s1)
         | (Ok _, s1) => raise type_error s1
         | r => r
         end
     | EIsOMD a =>
         match eval en a s with
         | (Ok (VArg ASelf), s1) | (Ok (VArg AOther), s1) | (Ok (VOtherObj _), s1) => (Ok (VBool true), s1)
-        | (Ok (VArg _), s1) | (Ok (VJunk _), s1) => (Ok (VBool false), s1)
+        | (Ok (VArg _), s1) | (Ok (VJunk _), s1) | (Ok (VKw _), s1) => (Ok (VBool false), s1)
         | (Ok _, s1) => raise type_error s1
         | r => r
         end
     | EHasKeys a =>
         match eval en a s with
         | (Ok (VArg (APairs _)), s1) | (Ok (VJunk _), s1) => (Ok (VBool false), s1)
-        | (Ok (VArg _), s1) | (Ok (VOtherObj _), s1) => (Ok (VBool true), s1)
+        | (Ok (VArg _), s1) | (Ok (VOtherObj _), s1) | (Ok (VKw _), s1) => (Ok (VBool true), s1)
         | (Ok _, s1) => raise type_error s1
         | r => r
         end
@@ -536,6 +548,27 @@ Section Interp.
         | r0 => r0
         end
     | ENewEmpty => (Ok (VOtherObj pm_empty), s)
+    | ELenGt1 a =>
+        match eval en a s with
+        | (Ok VArgsMany, s1) => (Ok (VBool true), s1)
+        | (Ok VArgs0, s1) | (Ok (VArgs1 _ _), s1) => (Ok (VBool false), s1)
+        | (Ok _, s1) => raise type_error s1
+        | r => r
+        end
+    | EArgs0 a =>
+        match eval en a s with
+        | (Ok (VArgs1 AOther q), s1) => (Ok (VOtherObj q), s1)
+        | (Ok (VArgs1 x _), s1) => (Ok (VArg x), s1)
+        | (Ok VArgs0, s1) => raise IndexError s1
+        | (Ok _, s1) => raise type_error s1
+        | r => r
+        end
+    | EReduce a =>
+        match eval en a s with
+        | (Ok (VPairs l), s1) => (Ok (VReduce l), s1)
+        | (Ok _, s1) => raise type_error s1
+        | r => r
+        end
     | ETrue => (Ok (VBool true), s)
     | EFalse => (Ok (VBool false), s)
     | ENotIs a b =>
@@ -920,6 +953,8 @@ Section Interp.
         | (Ok _, s1) => (ORaise type_error, en, s1)
         | (Raise x0, s1) => (ORaise x0, en, s1)
         end
+    | SRaiseTypeError => (ORaise TypeError, en, s)
+    | SSuperInit => (ONormal, en, s)
     | STryTypeError b h =>
         match exec b en s with
         | (ORaise TypeError, en1, s1) => exec h en1 s1
